@@ -89,6 +89,8 @@ def duration(r: Any, weights: Dict[str, int]) -> int:
         return r.randint(500_000, 3_000_000)
     if c == "poll":
         return 300_000 * r.randint(1, 3) + r.choice([-1, 0, 0, 1])
+    if c == "tie":
+        return r.choice([1_000, 50_000, 300_000])      # a few exact values: several bodies end in the very same loop iteration
     raise ValueError(c)
 
 
@@ -157,7 +159,10 @@ def gen_attempt(r: Any, kn: dict, faults: bool, sync: bool, has_ctx: bool) -> di
         out = ["ret"]
     if not sync and kn["p_never"] and r.random() < kn["p_never"]:
         out = ["never"]
-    return {"steps": steps, "out": out}
+    att = {"steps": steps, "out": out}
+    if not sync and kn.get("p_cleanup") and r.random() < kn["p_cleanup"]:
+        att["cleanup_us"] = duration(r, {"short": 1, "medium": 2, "long": 2})     # the body takes this long to unwind when cancelled
+    return att
 
 
 def malformed_payload(r: Any) -> bytes:
@@ -348,6 +353,8 @@ def gen_worker_script(rs: int, knobs: Optional[dict] = None) -> dict:
             else:
                 tmo = tot + r.randint(1_000, 500_000)
             m["timeout"] = tmo / 1e6
+            if tot > 0 and r.random() < kn.get("p_zero_timeout", 0.0):
+                m["timeout"] = r.choice([0, 0.0])       # a zero timeout label: the body must not get to run to completion
             if r.random() < 0.5:
                 for a in m["attempts"]:
                     a["cleanup_us"] = duration(r, {"tiny": 2, "short": 3, "medium": 2})
